@@ -22,7 +22,8 @@ EXES = ["m_watch"]
 GEN = True
 THEOREMS = ["constants_are_protocol", "typed_by_command", "none_iff_no_answer_expected",
             "tridonic_table", "hasseb_table", "daliserver_table", "luba_table", "sci_table", "atx_table",
-            "seqAt_range", "routing_tridonic", "routing_slot", "routing_queue"]
+            "tri_ignores_unknown", "seqAt_range", "seqAt_closed", "seqAt_eq_iff",
+            "routing_tridonic", "routing_slot", "routing_queue"]
 TRUSTED = ["hand-written models Model/Answer.lean (status -> response code of six drivers) and Model/Routing.lean "
            "(outstanding-by-sequence-number; single slot; flushed queue), tied by this correspondence: pure mappings "
            "exhaustively over status/type codes x bytes x command kinds, routing by trace validation of the real "
@@ -187,10 +188,11 @@ def correspond(ctx, corr):
     route_tridonic(ctx, corr, ids, picks)
     route_hasseb(ctx, corr, ids, picks)
     route_serial(ctx, corr, ids, picks)
-    corr.exhaustive["hasseb status x byte"] = True
-    corr.exhaustive["tridonic report type x status byte"] = True
-    corr.exhaustive["daliserver status x value"] = True
-    corr.exhaustive["serial answer byte"] = True
+    corr.exhaustive["hasseb: every status code x (every byte for the protocol's codes 1-3, boundary bytes otherwise)"] = True
+    corr.exhaustive["tridonic: every report type x (every status byte for types 0x72/0x77, boundary bytes otherwise)"] = True
+    corr.exhaustive["daliserver: every status x every value"] = True
+    corr.exhaustive["LUBA/SCI: time-out and every answer byte"] = True
+    corr.exhaustive["ATX: every line sequence of length <= 3 over the 12-line alphabet"] = True
 
 
 def check_table(corr, gw, c, bus, impl, ids, history=None):
